@@ -126,11 +126,46 @@ func GenCfg(src *choice.Src, o Opts) *Cfg {
 		}
 		c.Decorators = append(c.Decorators, d)
 	}
+	if !o.Plain && !o.NoScopes && len(c.Services) > 0 && src.Chance("nscollide", 1, 3) {
+		g.namespaceCollision()
+	}
 	BreakCycles(c)
 	if o.LegalOnly {
 		MakeScopeLegal(c)
 	}
 	return c
+}
+
+// namespaceCollision: parameters, tags and services live in three independent namespaces. Give a
+// shared service a parameter reference, a tag and a tagged-injection whose *names* equal the name of
+// an unrelated contextual service: nothing about scopes may follow from that.
+func (g *genState) namespaceCollision() {
+	c, src := g.cfg, g.src
+	ctxName := "ctxonly"
+	for _, s := range c.Services {
+		if s.Scope == "contextual" {
+			ctxName = s.Name
+		}
+	}
+	if c.Svc(ctxName) == nil {
+		c.Services = append(c.Services, Svc{Name: ctxName, Value: "&" + g.fx("Node{}"), Fields: []Field{{"Name", Arg{Kind: "str", S: ctxName}}}, Scope: "contextual"})
+	}
+	if c.Param(ctxName) == nil {
+		c.Params = append(c.Params, Param{Name: ctxName, V: Arg{Kind: "int", I: 7}})
+	}
+	sh := Svc{Name: "sharedUser", Ctor: g.fx("NewNode"), Args: []Arg{{Kind: "str", S: "sharedUser"}}, Scope: "shared"}
+	if c.Svc(sh.Name) != nil {
+		return
+	}
+	switch src.Draw("nscollide.kind", 3) {
+	case 0:
+		sh.Args = append(sh.Args, Arg{Kind: "pattern", Chunks: []Chunk{{Kind: "ref", S: ctxName}}})
+	case 1:
+		sh.Tags = append(sh.Tags, Tag{Name: ctxName})
+	case 2:
+		sh.Args = append(sh.Args, Arg{Kind: "tagged", S: ctxName})
+	}
+	c.Services = append(c.Services, sh)
 }
 
 func (g *genState) litArg() Arg {
@@ -190,7 +225,7 @@ func (g *genState) paramValue(i int, name string) Arg {
 	case "todo":
 		ch := Chunk{Kind: "todo"}
 		if src.Bool("todomsg") {
-			ch.HasDef, ch.Def = true, choice.Pick(src, "todomsgv", []string{"in development", "set me at runtime", "not implemented (yet)", "a, b"})
+			ch.HasDef, ch.Def = true, choice.Pick(src, "todomsgv", []string{"in development", "not implemented (yet)", "a, b (c)", "see docs) then (retry"})
 		}
 		return Arg{Kind: "pattern", Chunks: []Chunk{ch}}
 	case "fn":
@@ -310,7 +345,12 @@ func (g *genState) service(name string, i int) Svc {
 		}
 	case "value":
 		s.Value = "&" + g.fx("Node{}")
-		s.Fields = append(s.Fields, Field{"Name", nameArg})
+		if g.o.Plain || !src.Chance("anonvalue", 1, 3) {
+			s.Fields = append(s.Fields, Field{"Name", nameArg})
+		} else {
+			// a bare value: no constructor, no fields, no calls (its identity is observable at top level only)
+			kind = "leaf"
+		}
 	case "type":
 		s.Type = g.fx("Node")
 		s.Fields = append(s.Fields, Field{"Name", nameArg})
@@ -352,7 +392,8 @@ func (g *genState) service(name string, i int) Svc {
 		s.Scope = choice.Pick(src, "sscope", []string{"", "", "shared", "contextual", "non_shared"})
 	}
 	if kind != "type" && kind != "leaf" && src.Chance("sgetter", 1, 3) {
-		s.Getter = "Get" + goIdent(name)
+		// distinct services need distinct getters (names may differ only in case or punctuation)
+		s.Getter = "Get" + goIdent(name) + strconv.Itoa(i)
 		if src.Bool("sgettype") {
 			s.Type = "*" + g.fx("Node")
 		}
